@@ -70,6 +70,7 @@ def _case(name, yaml_text, extra, sinks, expect, want_code, fail_at, trace_mode)
     trace_root = d / "trace"
     trace_dir = trace_root if trace_mode == "dir" else trace_root / "sub" / "run.ser.jsonl"
     cfg = d / "p.yaml"
+    (d / "src.csv").write_text("factor,extra\n5.0,1\n6.0,2\n")          # an external run-space source some configurations refer to
     sink_paths = [d / s for s in sinks]
     cfg.write_text(yaml_text.replace("{out}", str(sink_paths[0]) if sink_paths else "").replace("{dir}", str(d)))
     argv = ["run", str(cfg), *extra, "--trace.driver", "jsonl", "--trace.output", str(trace_dir), "-q"] if "--trace.driver" not in extra \
@@ -159,6 +160,16 @@ INVALID = {
     "run_space-not-a-mapping": (GOODP + "run_space: 3\n", ["--context", "factor=2.0"]),
     "run_space-by_position-length-mismatch": (HEAD + "pipeline:\n" + nodes(2) + "run_space:\n  blocks:\n    - mode: by_position\n      context:\n        factor: [2.0, 3.0]\n        other: [1]\n", []),
     "run_space-unknown-mode": (HEAD + "pipeline:\n" + nodes(2) + "run_space:\n  blocks:\n    - mode: sideways\n      context:\n        factor: [2.0, 3.0]\n", []),
+    # duplicate keys: within a block, across blocks (context / context, context / source column, after rename), missing column
+    "run_space-duplicate-key-context+source-in-one-block": (HEAD + "pipeline:\n" + nodes(2) + "run_space:\n  blocks:\n    - mode: by_position\n      context:\n        factor: [2.0, 3.0]\n"
+                                                            "      source:\n        format: csv\n        path: \"{dir}/src.csv\"\n        select: [factor]\n", []),
+    "run_space-duplicate-key-across-blocks": (HEAD + "pipeline:\n" + nodes(2) + "run_space:\n  blocks:\n    - mode: by_position\n      context:\n        factor: [2.0, 3.0]\n"
+                                              "    - mode: by_position\n      context:\n        factor: [4.0, 5.0]\n", []),
+    "run_space-duplicate-key-later-block-source-column": (HEAD + "pipeline:\n" + nodes(2) + "run_space:\n  blocks:\n    - mode: by_position\n      context:\n        factor: [2.0, 3.0]\n"
+                                                          "    - mode: by_position\n      source:\n        format: csv\n        path: \"{dir}/src.csv\"\n        select: [factor]\n", []),
+    "run_space-duplicate-key-after-rename": (HEAD + "pipeline:\n" + nodes(2) + "run_space:\n  blocks:\n    - mode: by_position\n      context:\n        factor: [2.0, 3.0]\n"
+                                             "    - mode: by_position\n      source:\n        format: csv\n        path: \"{dir}/src.csv\"\n        select: [extra]\n        rename: {extra: factor}\n", []),
+    "run_space-source-missing-column": (HEAD + "pipeline:\n" + nodes(2) + "run_space:\n  blocks:\n    - mode: by_position\n      source:\n        format: csv\n        path: \"{dir}/src.csv\"\n        select: [factor, nope]\n", []),
     "unknown-trace-driver": (GOODP, ["--context", "factor=2.0", "--trace.driver", "no_such_driver_anywhere"]),
     "unknown-orchestrator": (GOODP, ["--context", "factor=2.0", "--execution.orchestrator", "NoSuchOrchestratorAnywhere"]),
     "type-incompatible-nodes": (HEAD + "pipeline:\n  nodes:\n    - processor: FloatValueDataSourceWithDefault\n    - processor: FloatCollectionSumOperation\n    - processor: FloatTxtFileSaver\n      parameters:\n        path: \"{out}\"\n", []),
@@ -179,7 +190,7 @@ for n in ((1, 2, 3, 4) if thorough else (1, 2, 3)):
 
 import shutil
 shutil.rmtree(root, ignore_errors=True)
-print(json.dumps({"bound": "run_space block placement {absent, empty, top-level, nested} x flags {none, --validate, --dry-run, --run-space-dry-run, +max-runs, yaml dry_run, cap exceeded (incl. caps 0 and 1) / sufficient} + 12 invalid configurations + failing run k of n (n <= 3 quick, 4 thorough)",
+print(json.dumps({"bound": "run_space block placement {absent, empty, top-level, nested} x flags {none, --validate, --dry-run, --run-space-dry-run, +max-runs, yaml dry_run, cap exceeded (incl. caps 0 and 1) / sufficient} + 17 invalid configurations (incl. duplicate run-space keys within / across blocks / from a source column / after rename, missing source column) + failing run k of n (n <= 3 quick, 4 thorough)",
                   "evaluations": evaluations, "distinct_nontrivial": len(distinct),
                   "rule": "distinct = case name; execution observed through sink files and JSONL trace records written by the real CLI",
                   "failures": failures[:40], "samples": samples}, default=str))
